@@ -113,6 +113,11 @@ namespace ip {
 
 		if (m_queue.empty()) return;
 
+		// a wake-up that was already on its way when the lookups it was meant
+		// for were cancelled: the entry now at the front is not due yet (the
+		// timer has been re-armed for it)
+		if (m_queue.front().completion_time > chrono::high_resolution_clock::now()) return;
+
 		typename queue_t::value_type v = std::move(m_queue.front());
 		m_queue.erase(m_queue.begin());
 
